@@ -393,7 +393,7 @@ func stackRun(w *World) {
 					w.Fault("stall")
 				}
 				streams = append(streams, st)
-				task.Yield("after-open")
+				task.Settle("after-open")
 				first := st.snapshot()
 				st.mu.Lock()
 				serr := st.err
@@ -450,7 +450,7 @@ func stackRun(w *World) {
 				}
 				resp := newMsg(tr.update.Output())
 				err := conn.Invoke(context.Background(), full(tr.update), req, resp)
-				task.Yield("after-update")
+				task.Settle("after-update")
 				after, gerr := doGet(nil, false)
 				if gerr != nil {
 					bad("get-failed", fmt.Sprintf("Get after Update failed: %v", gerr))
